@@ -299,7 +299,6 @@ pub const HAZARD_FINDINGS: &[(&str, &[&str])] = &[
     ("drop_agg", &["C01-aggregate-pruned"]),
     ("dup_names", &["C05-dedup-select-items"]),
     ("dup_select", &["C05-same-column-merged"]),
-    ("neg_neg", &["C02-double-negation"]),
     ("open_take", &["C07-offset-without-limit", "C07-noop-take-keeps-sort"]),
     ("wild_except_twice", &["C05-consecutive-exclusions-forget-first"]),
     ("wild_except_sorted", &["C05-excluded-sort-key-returns"]),
